@@ -19,7 +19,8 @@ A *script* is plain data (JSON-able):
         {"t": "ext", "c": ch, "fb": std char}       fallback standard character then the extended character
         {"t": "bs", "s": ch}                        a wrong character followed by backspace
         {"t": "pad", "n": n}                        n null words
-        {"t": "ch2", "row": r, "s": str, "f2": bool, "ctl": name|None}  burst for channel 2 (or field-2 code), ignored by channel 1
+        {"t": "ch2", "row": r, "s": str, "f2": bool, "ctl": name|None, "mirror": bool}  burst for channel 2 (or field-2 code), ignored
+                                                    by channel 1; mirror: opens with the channel-2 twin of the preceding channel-1 code
   every control-bearing item may carry "single": True (sent once instead of twice)
 
 flatten(script) gives the SCC lines and, for every word, its line, its index on the line, and what the generator meant by it;
@@ -205,7 +206,12 @@ class _Emitter:
   def other(self, item):
     self.flush()
     chan = "f2" if item.get("f2") else 2
-    if chan == 2:
+    last = self.flat.words[-1]["s"] if self.flat.words else 0
+    if chan == 2 and item.get("mirror") and 0x1000 <= last < 0x2000 and not last & 0x0800 and (last >> 8) != 0x15:
+      # the burst opens with the channel-2 twin of the channel-1 code just sent, transmitted once: equal in everything but the channel
+      self._word(last | 0x0800, 2, False, "ch2")
+      self.flat.labels.add("channel-2-twin-of-previous-code")
+    elif chan == 2:
       w = enc_pac(item.get("row", 15), chan=2)
       self._word(w, 2, False, "ch2"); self._word(w, 2, True, "ch2")
       if item.get("ctl"):
@@ -617,8 +623,13 @@ def _avoid_c4(items):
 @st.composite
 def _burst(draw, prof):
   f2 = prof["f2"] and draw(st.integers(0, 2)) == 0
-  return {"t": "ch2", "row": draw(st.integers(1, 15)), "s": draw(st.sampled_from(["", "zz", "OTHER", "ch2 text"])), "f2": f2,
-          "ctl": draw(st.sampled_from([None, "RCL", "EOC", "EDM", "RU2", "CR", "RDC", "ENM"]))}
+  b = {"t": "ch2", "row": draw(st.integers(1, 15)), "s": draw(st.sampled_from(["", "zz", "OTHER", "ch2 text"])), "f2": f2,
+       "ctl": draw(st.sampled_from([None, "RCL", "EOC", "EDM", "RU2", "CR", "RDC", "ENM"]))}
+  if prof["undoubled"] and not f2 and draw(st.integers(0, 2)) == 0:
+    b["mirror"] = True
+    b["ctl"] = None
+    b["s"] = draw(st.sampled_from(["zz", "OTHER", "ch2 text"]))
+  return b
 
 
 @st.composite
